@@ -5,6 +5,7 @@
 #pragma once
 #include "kit.h"
 #include <set>
+#include <vector>
 
 namespace tracked
 {
@@ -12,14 +13,17 @@ namespace tracked
     {
         std::set<const void *> live;
         const char *prop = "Cxx";
-        // optional: the only interval in which elements of the container under test may be constructed
-        const char *lo = nullptr, *hi = nullptr;
+        // optional: while `guard` is set (the harness sets it around calls into a fixed-capacity container) elements may
+        // only be constructed inside one of these storage intervals
+        std::vector<std::pair<const char *, const char *>> zones;
+        bool guard = false;
         uint64_t constructed = 0, destroyed = 0, cells = 0;
         void reset(const char *p)
         {
             live.clear();
             prop = p;
-            lo = hi = nullptr;
+            zones.clear();
+            guard = false;
             constructed = destroyed = 0;
             cells = 0;
         }
@@ -42,6 +46,13 @@ namespace tracked
             {
                 kit::defer_violation(sig("construct-over-live"), "%s constructs an element in a slot that already holds a live element", how);
                 return false;
+            }
+            if (r.guard)
+            {
+                bool inside = false;
+                for (auto &z : r.zones)
+                    if ((const char *)this >= z.first && (const char *)(this + 1) <= z.second) inside = true;
+                if (!inside) kit::defer_violation(sig("construct-outside-storage"), "%s constructs an element outside the container's element storage", how);
             }
             r.live.insert(this);
             r.constructed++;
